@@ -1,15 +1,17 @@
 #!/bin/bash
-# tools/mkmutant.sh <name> <file-in-repo> <python-replace-old> <python-replace-new> : write mutants/<name>.patch
+# tools/mkmutant.sh <name> <file-in-repo> <old text> <new text> : write mutants/<name>.patch (first occurrence replaced).
+# Works on a scratch copy; /repo is never modified.
 name="$1"; f="$2"
-cd /repo || exit 9
-git diff --quiet || { echo "/repo dirty"; exit 9; }
-OLD="$3" NEW="$4" python3 - "$f" <<'PY'
+work=$(mktemp -d /tmp/mkmut-XXXXXX) || exit 9
+trap 'rm -rf "$work"' EXIT
+mkdir -p "$work/a/$(dirname "$f")" "$work/b/$(dirname "$f")"
+cp "/repo/$f" "$work/a/$f"; cp "/repo/$f" "$work/b/$f"
+OLD="$3" NEW="$4" python3 - "$work/b/$f" <<'PY' || exit 9
 import os,sys
 p=sys.argv[1]; s=open(p).read(); old=os.environ['OLD']; new=os.environ['NEW']
-assert s.count(old)>=1, "pattern not found"
+if s.count(old)<1:
+    sys.stderr.write("pattern not found\n"); sys.exit(1)
 open(p,'w').write(s.replace(old,new,1))
 PY
-[ $? -eq 0 ] || { git checkout -- .; exit 9; }
-git diff > /verif/mutants/$name.patch
-git checkout -- .
+(cd "$work" && diff -u "a/$f" "b/$f" > "/verif/mutants/$name.patch")
 echo "wrote mutants/$name.patch ($(wc -l < /verif/mutants/$name.patch) lines)"
